@@ -147,6 +147,12 @@ def write_evidence(ctx, mod, obligations, discharged, corr, violations, extra=No
         'violations': violations,
     }
     p = os.path.join(paths.EVIDENCE_DIR, '%s.json' % ctx.prop_id)
+    if os.path.realpath(ctx.repo) != os.path.realpath('/repo'):
+        # a run against another tree (mutant / seeded change, XDOC_VERIF_REPO): its record must never replace
+        # the evidence of /repo itself
+        alt = os.path.join(paths.REPLAY_DIR, 'evidence-other-tree')
+        os.makedirs(alt, exist_ok=True)
+        p = os.path.join(alt, '%s.json' % ctx.prop_id)
     tmp = p + '.tmp%d' % os.getpid()
     with open(tmp, 'w') as f:
         json.dump(ev, f, indent=1, default=repr)
